@@ -7,12 +7,16 @@ NATIVE = None
 NEEDS = ('icontract',)
 RULE = ('Exhaustive: every (n, start, stop, step) with n in 0..N, start/stop in {None} u [-N..N], step in {None} u [1..N]; '
         'every Sample(k), k in 1..3N on n in 0..4N; plus grammar-generated and malformed option strings and random large '
-        'values.  A case is one (selector, n) or one option string; non-trivial = selects >= 2 indices with a step/stride > 1 '
+        'values, sequences far longer than any machine word (n up to 10^30 with a step that keeps the selection small), bounds and '
+        'steps beyond 2^64, sample sizes next to n; every option string accepted is also applied to sequences and compared with the '
+        'denoted selector semantically; the --frame-slice option as argparse delivers it.  '
+        'A case is one (selector, n) or one option string; non-trivial = selects >= 2 indices with a step/stride > 1 '
         'or a negative/absent bound, or (strings) any string that is not the default ",,".  Distinct by the tuple itself.')
 ASSUMPTIONS = [
     'Python built-in slicing is the reference for Slice; the sample definition of the property text is the reference for Sample',
     'step <= 0 is outside the property quantifier (step in 1..N or absent) and is not asserted',
-    'option strings with digit separators/underscores or unicode digits are not generated (int() accepts them; the property does not name them)',
+    'option strings with digit separators/underscores, unicode digits, leading zeros or blanks other than the space are not generated (int() accepts them; the property does not name them)',
+    'first() is asserted only for a non-empty selection (the property speaks of the first index of a selection)',
 ]
 MECHANISMS = [
     ('TotalDepth.common.Slice', 'Slice.first'), ('TotalDepth.common.Slice', 'Slice.count'),
@@ -20,7 +24,7 @@ MECHANISMS = [
     ('TotalDepth.common.Slice', 'Sample.gen_indices'), ('TotalDepth.common.Slice', 'Sample.count'),
     ('TotalDepth.common.Slice', 'create_slice_or_sample'),
 ]
-REQUIRED_MONITORS = ['slice_vs_python', 'sample_definition', 'parser_accepts', 'parser_rejects', 'shared_object_interleaved',
+REQUIRED_MONITORS = ['slice_vs_python', 'sample_definition', 'parser_accepts', 'parser_rejects', 'shared_object_interleaved', 'option_via_argparse',
                      'contract:Slice.indices', 'contract:Slice.count']
 MIN_NONTRIVIAL = {'quick': 20000, 'thorough': 150000}
 N_FOR = {'quick': 9, 'thorough': 14}
@@ -32,57 +36,95 @@ def plan(tier, seed):
     return [{'N': N, 'part': i, 'parts': NSHARDS} for i in range(NSHARDS)]
 
 
-def check_slice(rec, S, a, b, c, n):
-    sl = S.Slice(a, b, c)
-    exp = list(range(n))[a:b:c]
-    got = sl.indices(n)
-    gen = list(sl.gen_indices(n))
-    cnt = sl.count(n)
+def check_slice(rec, S, a, b, c, n, sl=None):
+    """A wrong selector must never be able to exhaust the harness: the generated indices are taken lazily and only as far
+    as the expected selection reaches (+2); nothing is materialised by the selector itself (count() and indices() build
+    lists) unless what it generates is right, and indices() only when count() is plausible."""
+    sl = sl or S.Slice(a, b, c)
+    if n > 10 ** 6 and len(range(n)[a:b:c]) > 10 ** 5:
+        raise RuntimeError('harness: generated selection too large: %r' % ((a, b, c, n),))
+    # Python's own slicing: of a list for short sequences, of the (lazy) range object for sequences no list could hold
+    exp = list(range(n))[a:b:c] if n <= 10 ** 6 else list(range(n)[a:b:c])
     rec.mon('slice_vs_python')
     w = {'selector': 'Slice(%r,%r,%r)' % (a, b, c), 'n': n, 'expected': exp[:30]}
-    if got != exp:
-        rec.violation('slice_vs_python', 'indices', 'Slice(%r,%r,%r).indices(%d)=%r expected %r' % (a, b, c, n, got[:30], exp[:30]), dict(w, got=got[:30]))
-    if gen != exp:
-        rec.violation('slice_vs_python', 'gen_indices', 'Slice(%r,%r,%r).gen_indices(%d)=%r expected %r' % (a, b, c, n, gen[:30], exp[:30]), dict(w, got=gen[:30]))
-    if cnt != len(exp):
-        rec.violation('slice_vs_python', 'count', 'Slice(%r,%r,%r).count(%d)=%r expected %d' % (a, b, c, n, cnt, len(exp)), dict(w, got=cnt))
-    if exp:
-        f = sl.first(n)
-        if f != exp[0]:
-            rec.violation('slice_vs_python', 'first', 'Slice(%r,%r,%r).first(%d)=%r expected %d' % (a, b, c, n, f, exp[0]), dict(w, got=f))
+    what = 'gen_indices'
+    try:
+        gen = list(itertools.islice(sl.gen_indices(n), len(exp) + 2))
+        if gen != exp:
+            rec.violation('slice_vs_python', 'gen_indices', 'Slice(%r,%r,%r).gen_indices(%d)=%r%s expected %r' % (
+                a, b, c, n, gen[:30], ' ...' if len(gen) > len(exp) else '', exp[:30]), dict(w, got=gen[:30]))
+            return len(exp)
+        what = 'count'
+        cnt = sl.count(n)
+        if cnt != len(exp):
+            rec.violation('slice_vs_python', 'count', 'Slice(%r,%r,%r).count(%d)=%r expected %d' % (a, b, c, n, cnt, len(exp)), dict(w, got=cnt))
+        if isinstance(cnt, int) and cnt <= max(n, len(exp)):
+            what = 'indices'
+            got = sl.indices(n)
+            if got != exp:
+                rec.violation('slice_vs_python', 'indices', 'Slice(%r,%r,%r).indices(%d)=%r expected %r' % (a, b, c, n, got[:30], exp[:30]), dict(w, got=got[:30]))
+        if exp:
+            what = 'first'
+            f = sl.first(n)
+            if f != exp[0]:
+                rec.violation('slice_vs_python', 'first', 'Slice(%r,%r,%r).first(%d)=%r expected %d' % (a, b, c, n, f, exp[0]), dict(w, got=f))
+    except (Exception, MemoryError) as e:  # noqa
+        rec.violation('slice_vs_python', 'raises', 'Slice(%r,%r,%r).%s(%d) raised %s: %s' % (a, b, c, what, n, type(e).__name__, str(e)[:200]),
+                      dict(w, method=what, exception=type(e).__name__), exc=e if isinstance(e, Exception) else None)
     return len(exp)
 
 
-def check_sample(rec, S, k, n):
-    sm = S.Sample(k)
-    got = sm.indices(n)
-    gen = list(sm.gen_indices(n))
-    cnt = sm.count(n)
-    rec.mon('sample_definition')
-    w = {'selector': 'Sample(%d)' % k, 'n': n, 'got': got[:40]}
+def sample_defect(got, k, n):
+    """The sample definition of the property text applied to an index list; None when it holds."""
     m = min(k, n)
-    bad = None
     if len(got) != m:
-        bad = 'selects %d indices, expected min(N,n)=%d' % (len(got), m)
-    elif any(y <= x for x, y in zip(got, got[1:])):
-        bad = 'indices not strictly increasing'
-    elif got and got[0] != 0:
-        bad = 'does not begin with 0'
-    elif got and got[-1] >= n:
-        bad = 'index outside the sequence'
-    else:
-        gaps = [y - x for x, y in zip(got, got[1:])]
-        if gaps and max(gaps) - min(gaps) > 1:
-            bad = 'consecutive gaps differ by more than one: %r' % gaps[:30]
-    if bad:
-        rec.violation('sample_definition', 'indices', 'Sample(%d) on %d: %s' % (k, n, bad), w)
-    if gen != got:
-        rec.violation('sample_definition', 'gen_vs_list', 'Sample(%d) on %d: gen_indices %r != indices %r' % (k, n, gen[:30], got[:30]), w)
-    if cnt != len(got):
-        rec.violation('sample_definition', 'count', 'Sample(%d).count(%d)=%r but %d indices' % (k, n, cnt, len(got)), w)
-    if got and sm.first(n) != got[0]:
-        rec.violation('sample_definition', 'first', 'Sample(%d).first(%d)=%r' % (k, n, sm.first(n)), w)
-    return len(got)
+        return 'selects %d indices, expected min(N,n)=%d' % (len(got), m)
+    if any(y <= x for x, y in zip(got, got[1:])):
+        return 'indices not strictly increasing'
+    if got and got[0] != 0:
+        return 'does not begin with 0'
+    if got and got[-1] >= n:
+        return 'index outside the sequence'
+    gaps = [y - x for x, y in zip(got, got[1:])]
+    if gaps and max(gaps) - min(gaps) > 1:
+        return 'consecutive gaps differ by more than one: %r' % gaps[:30]
+    return None
+
+
+def check_sample(rec, S, k, n, sm=None):
+    sm = sm or S.Sample(k)
+    m = min(k, n)
+    rec.mon('sample_definition')
+    what = 'gen_indices'
+    w = {'selector': 'Sample(%d)' % k, 'n': n}
+    try:
+        gen = list(itertools.islice(sm.gen_indices(n), m + 2))       # lazily, and no further than a right answer reaches
+        w['got'] = gen[:40]
+        bad = sample_defect(gen, k, n)
+        if bad:
+            rec.violation('sample_definition', 'indices', 'Sample(%d) on %d: %s' % (k, n, bad), w)
+            return m
+        what = 'count'
+        cnt = sm.count(n)
+        if cnt != len(gen):
+            rec.violation('sample_definition', 'count', 'Sample(%d).count(%d)=%r but %d indices' % (k, n, cnt, len(gen)), w)
+        if isinstance(cnt, int) and cnt <= n:
+            what = 'indices'
+            got = sm.indices(n)
+            if gen != got:
+                rec.violation('sample_definition', 'gen_vs_list', 'Sample(%d) on %d: gen_indices %r != indices %r' % (k, n, gen[:30], got[:30]), w)
+        what = 'first'
+        if gen and sm.first(n) != gen[0]:
+            rec.violation('sample_definition', 'first', 'Sample(%d).first(%d)=%r' % (k, n, sm.first(n)), w)
+    except (Exception, MemoryError) as e:  # noqa
+        rec.violation('sample_definition', 'raises', 'Sample(%d).%s(%d) raised %s: %s' % (k, what, n, type(e).__name__, str(e)[:200]),
+                      dict(w, method=what, exception=type(e).__name__), exc=e if isinstance(e, Exception) else None)
+    return m
+
+
+def lazy_indices(sel, n, limit):
+    """What a selector generates on n, taken lazily and at most limit + 2 of it."""
+    return list(itertools.islice(sel.gen_indices(n), limit + 2))
 
 
 def fmt_part(rng, v):
@@ -92,6 +134,8 @@ def fmt_part(rng, v):
         s = str(v)
         if v >= 0 and rng.random() < 0.15:
             s = '+' + s
+        elif v == 0 and rng.random() < 0.3:
+            s = '-0'
     return ' ' * rng.choice([0, 0, 0, 1, 2]) + s + ' ' * rng.choice([0, 0, 0, 1, 3])
 
 
@@ -100,6 +144,14 @@ def run_shard(ctx, p):
     from tdv.mon import contracts
     contracts.install_slice_contracts()
     rec, rng = ctx.rec, ctx.rng
+    try:       # last line of defence: a selector that builds a list of 10^9 indices gets a MemoryError (a recorded violation), not the OOM killer
+        import resource
+        soft, hard = resource.getrlimit(resource.RLIMIT_AS)
+        cap = 3 << 30
+        if soft == resource.RLIM_INFINITY or soft > cap:
+            resource.setrlimit(resource.RLIMIT_AS, (cap, hard))
+    except Exception:  # noqa
+        pass
     N, part, parts = p['N'], p['part'], p['parts']
     bounds = [None] + list(range(-N, N + 1))
     steps = [None] + list(range(1, N + 1))
@@ -141,6 +193,45 @@ def run_shard(ctx, p):
             kk = rng.randrange(1, 2 * n + 3)
             k = check_sample(rec, S, kk, n)
             rec.case(('sample', kk, n), k >= 2 and kk < n, classes=['random-large-sample'])
+    # ---- sequences, bounds and steps beyond any machine word (the selection itself stays small)
+    HUGE_N = [2 ** 31 - 1, 2 ** 31, 2 ** 32 + 1, 2 ** 53 + 1, 2 ** 63 - 1, 2 ** 63, 2 ** 64 + 3, 10 ** 12, 10 ** 30]
+    for _ in range(250 if ctx.tier == 'quick' else 4000):
+        n = rng.choice(HUGE_N + [rng.randrange(10 ** 6, 10 ** 19)])
+        kind = rng.randrange(4)
+        if kind == 0:          # a step of the order of n / (a few): any bounds
+            c = max(1, n // rng.randrange(1, 40) + rng.choice([-1, 0, 1, 7]))
+            a = rng.choice([None, 0, rng.randrange(0, c + 1), -rng.randrange(1, n + 2), rng.randrange(-3 * n, 3 * n), -(10 ** 40), 10 ** 40])
+            b = rng.choice([None, n, n - 1, rng.randrange(-3 * n, 3 * n), -(10 ** 40), 10 ** 40])
+        elif kind == 1:        # a short window somewhere, small or absent step
+            a = rng.choice([0, 1, n - rng.randrange(0, 70), -rng.randrange(1, 70), rng.randrange(0, n), -rng.randrange(1, n + 1)])
+            b = a + rng.randrange(-5, 60)
+            if a >= 0 > b:
+                b = a                  # (a non-negative start with a negative stop would select nearly everything)
+            c = rng.choice([None, 1, 2, 7, 10 ** 20])
+        elif kind == 2:        # one bound absent
+            c = rng.choice([None, 1, 3])
+            if rng.random() < 0.5:
+                a, b = None, rng.choice([rng.randrange(0, 60), -n + rng.randrange(-3, 60), -n - 5, 0])
+            else:
+                a, b = rng.choice([n - rng.randrange(0, 60), -rng.randrange(1, 60), n, n + 10 ** 25]), None
+        else:                  # a step far larger than the sequence
+            a, b = rng.choice([None, 0, 5, -n, -1, -2]), rng.choice([None, n, -1, 10 ** 33])
+            c = rng.choice([n, n + 1, n - 1, 2 * n, n * 10 ** 10, n + 2 ** 64])
+        if kind == 3 or rng.random() < 0.8:
+            k = check_slice(rec, S, a, b, c, n)
+            rec.case(('slice', a, b, c, n), k >= 2, classes=['huge-n-slice'])
+        else:
+            kk = rng.choice([1, 2, 3, 17, 64, 10 ** 40, n + 1]) if rng.random() < 0.7 else rng.randrange(1, 200)
+            if kk > 10 ** 6:
+                n = rng.randrange(0, 300)           # a sample far larger than the sequence: every frame
+            k = check_sample(rec, S, kk, n)
+            rec.case(('sample', kk, n), k >= 2 and kk < n, classes=['huge-n-sample' if n > 10 ** 6 else 'huge-sample-size'])
+    # ---- sample sizes next to the sequence length (where "min(N, n)" and the error diffusion change regime)
+    for _ in range(120 if ctx.tier == 'quick' else 2000):
+        n = rng.choice([rng.randrange(2, 300), rng.randrange(2, 300), rng.randrange(300, 8000)])
+        for kk in sorted({max(1, n - 1), n, n + 1, max(1, n // 2), n // 2 + 1, max(1, n - 2), max(1, (2 * n) // 3)}):
+            k = check_sample(rec, S, kk, n)
+            rec.case(('sample', kk, n), k >= 2 and kk < n, classes=['sample-size-next-to-n'])
     # ---- one selector object used on several sequences at once (as the converters do: one --frame-slice object for every log pass)
     import itertools as _it
     for _ in range(400 if ctx.tier == 'quick' else 6000):
@@ -151,9 +242,10 @@ def run_shard(ctx, p):
         else:
             a, b, c = rng.choice([None, rng.randrange(-30, 30)]), rng.choice([None, rng.randrange(-30, 60)]), rng.choice([None, rng.randrange(1, 9)])
             sel, fresh, desc = S.Slice(a, b, c), (lambda: S.Slice(a, b, c)), 'Slice(%r,%r,%r)' % (a, b, c)
-        exp1, exp2 = fresh().indices(n1), fresh().indices(n2)
-        g1, g2 = sel.gen_indices(n1), sel.gen_indices(n2)
+        exp1, exp2 = lazy_indices(fresh(), n1, n1), lazy_indices(fresh(), n2, n2)
+        g1, g2 = itertools.islice(sel.gen_indices(n1), n1 + 2), itertools.islice(sel.gen_indices(n2), n2 + 2)
         got1, got2 = [], []
+        asked_wrong = []
         m = rng.randrange(0, 60)
         for x, y in _it.zip_longest(g1, g2):
             if x is not None:
@@ -161,10 +253,23 @@ def run_shard(ctx, p):
             if y is not None:
                 got2.append(y)
             if rng.random() < 0.3:      # other questions asked of the same object while the generators are live
-                rng.choice([sel.count, sel.first, sel.step, sel.indices])(m)
+                q = rng.choice(['count', 'first', 'indices', 'step'])
+                mm = rng.choice([m, n1, n2])
+                ans = getattr(sel, q)(mm)
+                if q != 'step' and not (q == 'first' and not fresh().indices(mm)):
+                    ref = {'count': len(fresh().indices(mm)), 'first': (fresh().indices(mm) or [None])[0], 'indices': fresh().indices(mm)}[q]
+                    if ans != ref:
+                        asked_wrong.append((q, mm, ans if q != 'indices' else ans[:20], ref if q != 'indices' else ref[:20]))
         rec.mon('shared_object_interleaved')
         rec.case(('interleaved', desc, n1, n2, m), len(exp1) >= 2 and len(exp2) >= 2 and n1 != n2, classes=['one-object-two-sequences'])
-        if got1 != exp1 or got2 != exp2 or sel.indices(n1) != exp1 or sel.count(n2) != len(exp2):
+        after = [sel.indices(n1) == exp1, sel.count(n2) == len(exp2), sel.indices(n2) == exp2, sel.count(n1) == len(exp1),
+                 list(sel.gen_indices(n1)) == exp1, not exp1 or sel.first(n1) == exp1[0], not exp2 or sel.first(n2) == exp2[0]]
+        if asked_wrong:
+            q, mm, ans, ref = asked_wrong[0]
+            rec.violation('shared_object_interleaved', 'answer-while-generating',
+                          '%s.%s(%d) asked while its generators for lengths %d and %d were live gave %r, a fresh selector gives %r' % (desc, q, mm, n1, n2, ans, ref),
+                          {'selector': desc, 'n1': n1, 'n2': n2, 'question': q, 'length': mm, 'got': ans, 'expected': ref})
+        if got1 != exp1 or got2 != exp2 or not all(after):
             rec.violation('shared_object_interleaved', 'state-carried-over',
                           '%s used on lengths %d and %d at once: generated %r and %r, a fresh selector gives %r and %r' % (desc, n1, n2, got1[:20], got2[:20], exp1[:20], exp2[:20]),
                           {'selector': desc, 'n1': n1, 'n2': n2, 'got1': got1[:40], 'got2': got2[:40], 'expected1': exp1[:40], 'expected2': exp2[:40]})
@@ -179,31 +284,54 @@ def run_shard(ctx, p):
     for _ in range(nstr):
         kind = rng.random()
         if kind < 0.45:
-            vals = [rng.choice([None, rng.randrange(-300, 300)]) for _ in range(3)]
+            def part_value():
+                r = rng.random()
+                if r < 0.3:
+                    return None
+                if r < 0.85:
+                    return rng.randrange(-300, 300)
+                return rng.choice([0, 1, -1, 2 ** 31, -2 ** 31 - 1, 2 ** 63, -2 ** 63 - 1, 2 ** 64 + 1, 10 ** 30, -10 ** 30, rng.randrange(-10 ** 12, 10 ** 12)])
+            vals = [part_value() for _ in range(3)]
             s = ','.join(fmt_part(rng, v) for v in vals)
             r = parse(s)
             rec.mon('parser_accepts')
-            rec.case(('str', s), s != ',,', classes=['string-slice'], sample={'option_string': s})
+            rec.case(('str', s), s != ',,', classes=['string-slice'] + (['string-slice-beyond-64-bit'] if any(v is not None and abs(v) >= 2 ** 63 for v in vals) else []),
+                     sample={'option_string': s})
             if r[0] != 'ok' or not isinstance(r[1], S.Slice) or r[1] != S.Slice(*vals):
                 rec.violation('parser_accepts', 'slice-string', 'create_slice_or_sample(%r) -> %r, expected Slice%r' % (s, r[1], tuple(vals)),
                               {'string': s, 'expected': repr(tuple(vals)), 'got': repr(r[1])}, exc=r[1] if r[0] == 'raise' else None)
             elif vals[2] is None or vals[2] > 0:
-                n = rng.randrange(0, 400)
-                if r[1].indices(n) != list(range(n))[vals[0]:vals[1]:vals[2]]:
-                    rec.violation('parser_accepts', 'slice-string-semantics', '%r on %d' % (s, n), {'string': s, 'n': n})
+                # the selector the string denotes, judged by what it selects (not by the selector's own __eq__)
+                for n in (0, 1, rng.randrange(0, 400), rng.randrange(400, 3000), 10 ** 15 if (vals[2] or 1) >= 10 ** 13 else 7):
+                    want = list(range(n)[vals[0]:vals[1]:vals[2]])
+                    sel = lazy_indices(r[1], n, len(want))
+                    if sel != want:
+                        rec.violation('parser_accepts', 'slice-string-semantics', '%r parsed to %s selects %r on %d, Python slicing %r' % (
+                            s, r[1], sel[:20], n, want[:20]), {'string': s, 'n': n})
+                        break
         elif kind < 0.6:
-            k = rng.randrange(1, 100000)
-            s = ' ' * rng.choice([0, 0, 1]) + str(k) + ' ' * rng.choice([0, 0, 2])
+            k = rng.choice([rng.randrange(1, 100000), rng.randrange(1, 40), 1, 2 ** 31, 2 ** 63, 2 ** 64 + 1, 10 ** 30])
+            s = ' ' * rng.choice([0, 0, 1]) + ('+' if rng.random() < 0.1 else '') + str(k) + ' ' * rng.choice([0, 0, 2])
             r = parse(s)
             rec.mon('parser_accepts')
             rec.case(('str', s), True, classes=['string-sample'])
             if r[0] != 'ok' or not isinstance(r[1], S.Sample) or r[1] != S.Sample(k):
                 rec.violation('parser_accepts', 'sample-string', 'create_slice_or_sample(%r) -> %r, expected Sample(%d)' % (s, r[1], k),
                               {'string': s, 'got': repr(r[1])}, exc=r[1] if r[0] == 'raise' else None)
+            else:
+                for n in (0, 1, rng.randrange(0, 60), rng.randrange(60, 2000)):
+                    sel = lazy_indices(r[1], n, min(k, n))
+                    bad = sample_defect(sel, k, n)
+                    if bad or r[1].count(n) != min(k, n):
+                        rec.violation('parser_accepts', 'sample-string-semantics', '%r parsed to %s on %d frames: %s' % (s, r[1], n, bad or 'count %r' % r[1].count(n)),
+                                      {'string': s, 'n': n, 'got': sel[:40]})
+                        break
         else:
             # malformed
             sub = rng.random()
-            word = rng.choice(['a', 'x1', '1.5', '2e3', '0x10', '--1', '1-', 'none', 'NONE', 'nil', '1 2', '*', '1;2', 'one'])
+            word = rng.choice(['a', 'x1', '1.5', '2e3', '0x10', '--1', '1-', 'none', 'NONE', 'nil', '1 2', '*', '1;2', 'one',
+                               '3.0', '1.', '.5', '1e2', 'True', 'False', 'null', 'nan', 'inf', '-inf', '0b1', '0o7', '+', '-', '++1', '+-1', '1+', "'1'", '"2"',
+                               '(1)', '[1]', '1:2', ':', '1/2', 'N', 'No', 'Non', 'Nonee', 'NoneNone', 'None1', '1None', '-None', '0x', '1L', '1j', '2**3', '1 000'])
             ints = [str(rng.randrange(-50, 50)) for _ in range(6)]
             if sub < 0.25:
                 nparts = rng.choice([2, 4, 5, 6])
@@ -218,7 +346,7 @@ def run_shard(ctx, p):
                 s = rng.choice([word, '', ' ', 'None'])
                 why = 'non-integer-sample'
             else:
-                s = str(rng.choice([0, 0, -1, -2, -rng.randrange(1, 10 ** 6)]))
+                s = rng.choice([str(rng.choice([0, 0, -1, -2, -rng.randrange(1, 10 ** 6), -10 ** 30])), '+0', '-0', ' 0', '0 ', ' -3 '])
                 why = 'sample-below-one'
             r = parse(s)
             rec.mon('parser_rejects')
@@ -229,6 +357,36 @@ def run_shard(ctx, p):
             elif not isinstance(r[1], (ValueError, TypeError)):
                 rec.violation('parser_rejects', why + '-exception-type', 'create_slice_or_sample(%r) raised %s, not a ValueError/TypeError rejection' % (s, type(r[1]).__name__),
                               {'string': s, 'class': why}, exc=r[1])
+    # ---- the option as the command line tools receive it: --frame-slice registered by add_frame_slice_to_argument_parser
+    import argparse
+    ap = argparse.ArgumentParser(prog='x', add_help=False)
+    S.add_frame_slice_to_argument_parser(ap)
+    S.add_frame_slice_to_argument_parser(argparse.ArgumentParser(prog='y', add_help=False), help_prefix='P.', use_what=True)
+    for i in range(60 if ctx.tier == 'quick' else 600):
+        if i == 0:
+            argv, denotes, desc = [], ('slice', None, None, None), 'option absent (default: every frame)'
+        elif rng.random() < 0.5:
+            vals = [rng.choice([None, rng.randrange(-40, 40)]) for _ in range(2)] + [rng.choice([None, rng.randrange(1, 9)])]
+            text = ','.join(fmt_part(rng, v) for v in vals)
+            argv, denotes, desc = ['--frame-slice=' + text], ('slice',) + tuple(vals), text
+        else:
+            k = rng.randrange(1, 90)
+            argv, denotes, desc = (['--frame-slice', str(k)] if rng.random() < 0.5 else ['--frame-slice=%d' % k]), ('sample', k), str(k)
+        rec.mon('option_via_argparse')
+        rec.case(('argv', tuple(argv)), True, classes=['option-via-argparse'])
+        n = rng.randrange(0, 80)
+        try:
+            sel = S.create_slice_or_sample(ap.parse_args(argv).frame_slice)
+            got = lazy_indices(sel, n, n)
+        except (Exception, SystemExit) as e:  # noqa
+            rec.violation('option_via_argparse', 'raises', '--frame-slice %s raised %s' % (desc, type(e).__name__), {'argv': argv}, exc=e if isinstance(e, Exception) else None)
+            continue
+        if denotes[0] == 'slice':
+            bad = got != list(range(n))[denotes[1]:denotes[2]:denotes[3]]
+        else:
+            bad = sample_defect(got, denotes[1], n) is not None
+        if bad:
+            rec.violation('option_via_argparse', 'selection', '%r on %d frames selects %r' % (argv, n, got[:30]), {'argv': argv, 'n': n, 'got': got[:40]})
     # ---- contracts observed
     for name, cnt in contracts.COUNTS.items():
         rec.mon('contract:' + name, cnt)
